@@ -21,7 +21,9 @@ var rec = hx.NewRecorder("C20",
 		"transaction, failed call or injected failure, and at least 2 subscribers (bus + GraphQL); distinct = distinct case",
 	"ground truth is the raw content of /db/blocks read between calls; the local history of every document is linear",
 	"the order of notifications inside one call is unspecified except that a commit follows the commits it links to",
-	"a GraphQL subscription may or may not yield a result for a delete commit (a deleted document matches no filter; both are accepted)",
+	"a deleted document matches no filter: a filtered GraphQL subscription must not yield a result for a delete commit, an unfiltered one may or may not",
+	"a transaction one of whose steps failed under an injected storage fault is discarded, never committed (committing the partial writes of a failed step is the caller's protocol violation)",
+	"a block under /db/blocks that no head reaches (left by a failed step of a transaction the caller commits anyway) is not a committed change",
 	"ACP is off (relationship changes re-announce heads and are not mutations); signing and encryption are off",
 	"GraphQL subscriptions are synchronised with a synthetic update event naming a block that does not exist, which every subscription answers with an error result; it is flagged IsRetry and ignored by the bus oracle",
 )
